@@ -181,6 +181,8 @@ def stage(work, tier, seed, variants=(False, True), witnesses=True):
                            timeout=1500 if tier == "quick" else 2400)
         if r.get("timeout"):
             raise Inconclusive("exhaustive RelayConc run timed out (vikja=%s)" % vikja)
+        if r.get("distinct") is None:
+            raise Inconclusive("exhaustive RelayConc run did not complete (vikja=%s): %s" % (vikja, r.get("error", "no statistics in TLC's output")))
         res["model"].append(dict(vikja=vikja, programs=len(progs), distinct=r.get("distinct"), generated=r.get("generated"), wall_s=round(r["wall"], 1),
                                  violated=r.get("violated"), deadlock="Deadlock reached" in open(r["log"]).read()))
         work.log("RelayConc exhaustive vikja=%s: %d programs, %s distinct states, %.0fs%s" % (
